@@ -11,9 +11,8 @@
 (* choices give the same verdict for every candidate result (the region    *)
 (* lemma of DESIGN 2.4).                                                   *)
 (***************************************************************************)
-EXTENDS Integers, Sequences, FiniteSets
+EXTENDS Alphabet, Integers, Sequences, FiniteSets
 
-CONSTANT MaxChar
 
 Alphabet == 0..MaxChar
 
